@@ -26,7 +26,12 @@ structure Inv {α} (c : Cfg α) (items0 : List (Item α)) (s : St α) : Prop whe
   child : s.childCancelled = true → s.errs = true
   gotD : s.gotD = true → s.dist = some .ok ∨ (s.dist = some .err ∧ s.errs = true)
   gotW : ∀ i, s.gotW i = true → s.wres i = some .ok ∨ (s.wres i = some .err ∧ s.errs = true)
-  cp : s.checkpoint = true → s.term = some .done ∧ ∀ a ∈ s.consumed, a ∈ s.applied
+  /-- the checkpoint is written only after the distributor saw `Done` — or the
+      channel closed without any terminal entry, which the distributor takes for a
+      normal end (`!ok → return nil`) — and everything it took has been applied -/
+  cp : s.checkpoint = true →
+    (s.term = some .done ∨ (s.term = none ∧ s.pipe0 = [] ∧ s.todo = [])) ∧ ∀ a ∈ s.consumed, a ∈ s.applied
+  cpDist : s.checkpoint = true → s.dist = some .ok
   /-- sendRdb returns nil only through setCheckpoint -/
   retOk : s.ret = some .ok → s.checkpoint = true
 
@@ -43,7 +48,7 @@ theorem allGot_iff {α} (n : Nat) (s : St α) : allGot n s = true ↔ ∀ i, i <
   simp [allGot, List.all_eq_true]
 
 theorem init_inv {α} (c : Cfg α) (items : List (Item α)) : Inv c items (init items) := by
-  refine ⟨by simp [init, termList], ?_, ?_, ?_, ?_, ?_, ?_, ?_, ?_, ?_, ?_, ?_, ?_⟩ <;> simp [init]
+  refine ⟨by simp [init, termList], ?_, ?_, ?_, ?_, ?_, ?_, ?_, ?_, ?_, ?_, ?_, ?_, ?_⟩ <;> simp [init]
 
 section
 variable {α : Type} (c : Cfg α) (items0 : List (Item α)) (s : St α) (inv : Inv c items0 s)
@@ -58,13 +63,18 @@ theorem parse_inv : Inv c items0 (stepParse c s) := by
     · exact { inv with closed0 := fun _ => h }
   · next it rest h =>
     split
-    · refine { inv with frame := ?_, distOk := ?_, closed0 := ?_ }
+    · refine { inv with frame := ?_, distOk := ?_, closed0 := ?_, cp := ?_ }
       · have := inv.frame; rw [h] at this; simpa [List.append_assoc] using this
       · intro hd
         rcases inv.distOk hd with h1 | ⟨_, _, h3⟩
         · exact Or.inl h1
         · rw [h] at h3; cases h3
       · intro hc; have := inv.closed0 hc; rw [h] at this; cases this
+      · intro hc
+        refine ⟨?_, (inv.cp hc).2⟩
+        rcases (inv.cp hc).1 with h1 | ⟨_, _, h3⟩
+        · exact Or.inl h1
+        · rw [h] at h3; cases h3
     · exact inv
 
 theorem dist_inv (hn : 0 < c.n) : Inv c items0 (stepDist c s) := by
@@ -81,12 +91,12 @@ theorem dist_inv (hn : 0 < c.n) : Inv c items0 (stepDist c s) := by
     have hnog : s.gotD = true → False := by
       intro hg; rcases inv.gotD hg with h | ⟨h, _⟩ <;> (rw [hd0] at h; cases h)
     have hnocp : s.checkpoint = true → False := by
-      intro h; have := (inv.cp h).1; rw [ht0] at this; cases this
+      intro h; have := inv.cpDist h; rw [hd0] at this; cases this
     split
     · next hp =>
       split
       · next hc0 =>
-        refine { inv with distOk := ?_, termDist := ?_, closedW := ?_, wok := ?_, gotD := ?_ }
+        refine { inv with distOk := ?_, termDist := ?_, closedW := ?_, wok := ?_, gotD := ?_, cpDist := fun h => absurd h (by simpa using hnocp) }
         · intro _; exact Or.inr ⟨ht0, hp, inv.closed0 hc0⟩
         · intro h; cases h
         · simp
@@ -97,7 +107,7 @@ theorem dist_inv (hn : 0 < c.n) : Inv c items0 (stepDist c s) := by
         · intro hg; exact absurd hg (by simpa using hnog)
       · exact inv
     · next rest hp =>
-      refine { inv with frame := ?_, distOk := ?_, termDist := ?_, closedW := ?_, wok := ?_, gotD := ?_, cp := ?_ }
+      refine { inv with frame := ?_, distOk := ?_, termDist := ?_, closedW := ?_, wok := ?_, gotD := ?_, cp := ?_, cpDist := fun h => absurd h (by simpa using hnocp) }
       · have := inv.frame; rw [hp, ht0] at this; simpa [termList, List.append_assoc] using this
       · intro h; cases h
       · intro h; cases h
@@ -109,7 +119,7 @@ theorem dist_inv (hn : 0 < c.n) : Inv c items0 (stepDist c s) := by
       · intro hg; exact absurd hg (by simpa using hnog)
       · intro h; exact absurd h (by simpa using hnocp)
     · next rest hp =>
-      refine { inv with frame := ?_, distOk := ?_, termDist := ?_, closedW := ?_, wok := ?_, gotD := ?_, cp := ?_ }
+      refine { inv with frame := ?_, distOk := ?_, termDist := ?_, closedW := ?_, wok := ?_, gotD := ?_, cp := ?_, cpDist := fun h => absurd h (by simpa using hnocp) }
       · have := inv.frame; rw [hp, ht0] at this; simpa [termList, List.append_assoc] using this
       · intro _; exact Or.inl rfl
       · intro h; cases h
@@ -150,7 +160,7 @@ theorem distCancel_inv : Inv c items0 (stepDistCancel s) := by
   · next h =>
     have hd0 : s.dist = none := by
       have := h; simp only [Bool.and_eq_true] at this; simpa using this.1
-    refine { inv with distOk := ?_, termDist := ?_, closedW := ?_, wok := ?_, gotD := ?_ }
+    refine { inv with distOk := ?_, termDist := ?_, closedW := ?_, wok := ?_, gotD := ?_, cpDist := ?_ }
     · intro h; cases h
     · intro h; cases h
     · simp
@@ -159,6 +169,7 @@ theorem distCancel_inv : Inv c items0 (stepDistCancel s) := by
       · exact Or.inl ⟨h1, rfl⟩
       · exact Or.inr h2
     · intro hg; rcases inv.gotD hg with h | ⟨h, _⟩ <;> (rw [hd0] at h; cases h)
+    · intro hc; have := inv.cpDist hc; rw [hd0] at this; cases this
   · exact inv
 
 theorem work_inv (i : Nat) : Inv c items0 (stepWork c s i) := by
@@ -340,9 +351,7 @@ theorem collectW_inv (i : Nat) : Inv c items0 (stepCollectW c s i) := by
           · exact Or.inl h
           · exact Or.inr ⟨h, rfl⟩
 
-theorem finish_inv (cpOk : Bool)
-    (h0 : ∃ (es : List α) (t : Term) (junk : List (Item α)), items0 = es.map Item.entry ++ Item.term t :: junk) :
-    Inv c items0 (stepFinish c s cpOk) := by
+theorem finish_inv (cpOk : Bool) : Inv c items0 (stepFinish c s cpOk) := by
   unfold stepFinish
   split
   · exact inv
@@ -392,17 +401,9 @@ theorem finish_inv (cpOk : Bool)
             | cons a l =>
               obtain ⟨i, hi, hw⟩ := inv.dropped (by rw [hd]; simp)
               rw [hwres i hi] at hw; cases hw
-          have hterm : s.term = some .done := by
-            rcases inv.distOk hdist with h | ⟨ht, hp, htd⟩
-            · exact h
-            · obtain ⟨es, t, junk, hi⟩ := h0
-              have := inv.frame
-              rw [ht, hp, htd, hi] at this
-              simp only [termList, List.append_nil] at this
-              exact absurd this (map_entry_ne _ _ _ _)
-          refine { inv with cp := ?_, retOk := fun _ => rfl }
+          refine { inv with cp := ?_, cpDist := fun _ => hdist, retOk := fun _ => rfl }
           intro _
-          refine ⟨hterm, ?_⟩
+          refine ⟨inv.distOk hdist, ?_⟩
           intro a ha
           rcases inv.member a ha with h | h | ⟨i, hi, hm⟩
           · exact h
@@ -413,7 +414,6 @@ theorem finish_inv (cpOk : Bool)
 end
 
 theorem step_inv {α} (c : Cfg α) (items0 : List (Item α)) (hn : 0 < c.n)
-    (h0 : ∃ (es : List α) (t : Term) (junk : List (Item α)), items0 = es.map Item.entry ++ Item.term t :: junk)
     (s : St α) (e : Ev) (inv : Inv c items0 s) : Inv c items0 (step c s e) := by
   cases e with
   | parse => exact parse_inv c items0 s inv
@@ -426,17 +426,16 @@ theorem step_inv {α} (c : Cfg α) (items0 : List (Item α)) (hn : 0 < c.n)
   | cancel => exact cancel_inv c items0 s inv
   | collectD => exact collectD_inv c items0 s inv
   | collectW i => exact collectW_inv c items0 s inv i
-  | finish cpOk => exact finish_inv c items0 s inv cpOk h0
+  | finish cpOk => exact finish_inv c items0 s inv cpOk
 
 theorem run_inv {α} (c : Cfg α) (items0 : List (Item α)) (hn : 0 < c.n)
-    (h0 : ∃ (es : List α) (t : Term) (junk : List (Item α)), items0 = es.map Item.entry ++ Item.term t :: junk)
     (sched : List Ev) : ∀ s, Inv c items0 s → Inv c items0 (run c s sched) := by
   induction sched with
   | nil => intro s h; exact h
   | cons e rest ih =>
     intro s h
     simp only [run, List.foldl_cons]
-    exact ih _ (step_inv c items0 hn h0 s e h)
+    exact ih _ (step_inv c items0 hn s e h)
 
 theorem entries_prefix_unique {α} : ∀ (l1 l2 : List α) (t1 t2 : Term) (r1 r2 : List (Item α)),
     l1.map Item.entry ++ Item.term t1 :: r1 = l2.map Item.entry ++ Item.term t2 :: r2 → l1 = l2 ∧ t1 = t2
